@@ -437,10 +437,18 @@ func symValue(t types.Type, name string) Value {
 			return newBigArr(u.Elem(), BVu(uint64(n), 64), name)
 		}
 		es := make([]Value, n)
+		if scalarWidth(u.Elem()) == 8 && n > 0 && n <= 64 {
+			// byte arrays (keys, signatures): one packed variable, byte i = bits 8i..8i+7
+			v := InputVar(name, 8*n)
+			for i := range es {
+				es[i] = Extract(v, 8*i+7, 8*i)
+			}
+			return &ArrayV{E: es, T: u.Elem()}
+		}
 		for i := range es {
 			es[i] = symValue(u.Elem(), fmt.Sprintf("%s[%d]", name, i))
 		}
-		return &ArrayV{E: es}
+		return &ArrayV{E: es, T: u.Elem()}
 	}
 	panic(unsupported("symbolic value of " + t.String()))
 }
@@ -799,8 +807,15 @@ func eqValue(a, b Value, t types.Type) *Term {
 	case *ArrayV:
 		y := b.(*ArrayV)
 		var et types.Type
-		if at, ok := t.Underlying().(*types.Array); ok {
-			et = at.Elem()
+		if t != nil {
+			if at, ok := t.Underlying().(*types.Array); ok {
+				et = at.Elem()
+			}
+		}
+		if len(x.E) > 1 && len(x.E) <= 64 {
+			if xt, ok := x.E[0].(*Term); ok && xt.W == 8 {
+				return Eq(bvFromBytes(x), bvFromBytes(y))
+			}
 		}
 		cs := make([]*Term, len(x.E))
 		for i := range x.E {
